@@ -584,13 +584,16 @@ class MessageAccumulator:
             aiokafka.errors.KafkaTimeoutError: the batch could not be added
                 within the specified timeout.
         """
-        if self._closed:
-            raise ProducerClosed()
-        if self._exception is not None:
-            raise copy.copy(self._exception)
-
         start = time.monotonic()
         while timeout > 0:
+            # Checked on every turn: the accumulator may have been closed (or
+            # failed) while we were waiting for the queue to drain, and a
+            # batch added after that would never be sent nor resolved.
+            if self._closed:
+                raise ProducerClosed()
+            if self._exception is not None:
+                raise copy.copy(self._exception)
+
             pending = self._batches.get(tp)
             if pending:
                 await pending[-1].wait_drain(timeout=timeout)
